@@ -166,6 +166,22 @@ class C14Bounded(Bounded):
                 out0 = f"{type(e).__name__}: {e}"
             if out0 != want0:
                 fail(f"backend with backend and output-format pipelines created with {label} as user pipeline: output {out0!r}, expected {want0!r} (the stages of the two remaining pipelines, nothing skipped)", ["no user pipeline", label])
+        # a backend whose default format is not called "default": converting without naming a format runs THAT format's pipeline
+        class BF(TextQueryTestBackend):
+            default_format = "str"
+            backend_processing_pipeline = make(7)
+            output_format_processing_pipeline = {"default": make(6), "str": make(9)}
+        for label, kw in (("no format named", {}), ("the format named", {"output_format": "str"})):
+            ev += 1
+            nontriv += 1
+            try:
+                bf = BF(make(8))
+                out_f = bf.convert(SigmaCollection.from_yaml(RULE), **kw)
+                ids_f = [x.identifier for x in bf.last_processing_pipeline.items]
+            except Exception as e:
+                out_f, ids_f = f"{type(e).__name__}: {e}", None
+            if ids_f != ["i7", "ph7", "i8", "ph8", "i9", "ph9"] or "<9(<8(<7(" not in str(out_f) or "<6(" in str(out_f):
+                fail(f"backend with default_format 'str' ({label}): items {ids_f}, output {str(out_f)[:200]!r} - expected the stages backend, user, output format 'str' (i9 / p9_ / <9)", ["default format", label])
         # items INSIDE a nest transformation keep working after their pipeline was an operand of + (state set inside the nest, read outside)
         nest_item = {"id": "n", "type": "nest", "items": [{"id": "inner", "type": "set_state", "key": "idx", "val": "w"}, {"id": "innermap", "type": "field_name_mapping", "mapping": {"f1": "F1"}}]}
         reader = {"id": "r", "type": "add_condition", "conditions": {"module": "sysmon"}, "rule_conditions": [{"type": "processing_state", "key": "idx", "val": "w"}]}
